@@ -1,4 +1,207 @@
-import SciVerif.Model.C06
+import SciVerif.Lemmas.C06
+import SciVerif.Lemmas.C06b
+
+/-!
+# C06 — Quantity arithmetic agrees with arithmetic on base-dimension values
+
+Theorems about the model of `quantity.py` / `base_units.py` / `fraction.py` / `unit_types.py`
+(`Model/C06.lean`) instantiated at the real numbers, for an arbitrary unit table `env` with
+positive factors (`EnvPos`) and arbitrary unit maps whose exponents have non-zero denominators
+(`BU.WF`). `Qty.base env q = value · Π factor(u)^exp(u)` is the value in base dimensions.
+Only property theorems live here; helpers are in `Lemmas/C06.lean`.
+-/
 namespace SciVerif.C06
-theorem C06_placeholder : True := trivial
+open SciVerif.C08
+
+set_option linter.unusedSectionVars false
+
+variable {ι : Type} [DecidableEq ι]
+
+/-- product: base values multiply (whatever units / prefixes the operands use, cancelling or
+    not, folded or not). -/
+theorem C06_mul (env : ι → UnitInfo ℝ) (hpos : EnvPos env) (l r : Qty ι ℝ)
+    (hl : l.units.WF) (hr : r.units.WF) :
+    (l.mul env r).base env = l.base env * r.base env := by
+  rw [Qty.mul, new_base, (magnitude_addU env hpos _ _ hl hr).2]
+  simp only [Qty.base, Mag.mul, Mag.new_real]
+  ring
+
+/-- quotient: base values divide. -/
+theorem C06_div (env : ι → UnitInfo ℝ) (hpos : EnvPos env) (l r : Qty ι ℝ)
+    (hl : l.units.WF) (hr : r.units.WF) :
+    (l.div env r).base env = l.base env / r.base env := by
+  rw [Qty.div, new_base, (magnitude_subU env hpos _ _ hl hr).2]
+  simp only [Qty.base, Mag.div, Mag.new_real]
+  rw [div_mul_div_comm]
+
+/-- negation. -/
+theorem C06_neg (env : ι → UnitInfo ℝ) (q : Qty ι ℝ) :
+    (q.neg env).base env = -(q.base env) := by
+  rw [Qty.neg, new_base]
+  simp [Qty.base, Mag.neg]
+
+/-- a plain number on either side goes through `Quantity(number)`, whose base value is the number. -/
+theorem C06_reflected (env : ι → UnitInfo ℝ) (hpos : EnvPos env) (x : ℝ) (q : Qty ι ℝ) (hq : q.units.WF) :
+    (Qty.ofNumber x : Qty ι ℝ).base env = x ∧
+    ((Qty.ofNumber x).mul env q).base env = x * q.base env ∧
+    ((Qty.ofNumber x).div env q).base env = x / q.base env ∧
+    (q.mul env (Qty.ofNumber x)).base env = q.base env * x ∧
+    (q.div env (Qty.ofNumber x)).base env = q.base env / x := by
+  have h0 : (Qty.ofNumber x : Qty ι ℝ).base env = x := by
+    simp [Qty.ofNumber, Qty.base, BU.magnitude, Mag.exact]
+  have hw : (Qty.ofNumber x : Qty ι ℝ).units.WF := by intro p hp; simp [Qty.ofNumber] at hp
+  refine ⟨h0, ?_, ?_, ?_, ?_⟩
+  · rw [C06_mul env hpos _ _ hw hq, h0]
+  · rw [C06_div env hpos _ _ hw hq, h0]
+  · rw [C06_mul env hpos _ _ hq hw, h0]
+  · rw [C06_div env hpos _ _ hq hw, h0]
+
+/-- sum and difference of quantities of the same dimension (as the code compares dimensions):
+    accepted, base values add / subtract, and the result carries the left operand's units
+    (if the left operand is dimensionless its units are re-folded as in any constructor call). -/
+theorem C06_add_sub (env : ι → UnitInfo ℝ) (hpos : EnvPos env) (l r : Qty ι ℝ)
+    (hd : (l.units.dims env).beq (r.units.dims env) = true) :
+    (∃ q, l.add env r = .ok q ∧ q.base env = l.base env + r.base env ∧
+      q.units = (Qty.new env l.mag l.units).units ∧
+      ((l.units.dims env).nodim = false → q.units = l.units)) ∧
+    (∃ q, l.sub env r = .ok q ∧ q.base env = l.base env - r.base env ∧
+      q.units = (Qty.new env l.mag l.units).units ∧
+      ((l.units.dims env).nodim = false → q.units = l.units)) := by
+  have hd' : (r.units.dims env).beq (l.units.dims env) = true := by rw [Dims.beq_comm]; exact hd
+  have hL : l.units.magnitude env ≠ 0 := (magnitude_pos env hpos _).ne'
+  have units_new : ∀ m : Mag ℝ, (Qty.new env m l.units).units = (Qty.new env l.mag l.units).units := by
+    intro m; unfold Qty.new; split <;> rfl
+  have units_nd : ∀ m : Mag ℝ, (l.units.dims env).nodim = false → (Qty.new env m l.units).units = l.units := by
+    intro m h; unfold Qty.new; simp [h]
+  constructor
+  · refine ⟨_, by simp [Qty.add, Qty.addsub, stdType, convert, hd, hd']; rfl, ?_, units_new _, units_nd _⟩
+    rw [new_base]
+    simp only [Mag.add, Mag.convertLinear, Mag.new_real, Qty.base]
+    field_simp
+  · refine ⟨_, by simp [Qty.sub, Qty.addsub, stdType, convert, hd, hd']; rfl, ?_, units_new _, units_nd _⟩
+    rw [new_base]
+    simp only [Mag.sub, Mag.convertLinear, Mag.new_real, Qty.base]
+    field_simp
+
+/-- adding or subtracting quantities of different dimension is refused. -/
+theorem C06_add_refuse (env : ι → UnitInfo ℝ) (l r : Qty ι ℝ)
+    (hd : (l.units.dims env).beq (r.units.dims env) = false) :
+    (∃ msg, l.add env r = .error msg) ∧ (∃ msg, l.sub env r = .error msg) := by
+  constructor
+  · simp only [Qty.add, Qty.addsub]
+    split
+    · exact ⟨_, rfl⟩
+    · simp [hd]; exact ⟨_, rfl⟩
+  · simp only [Qty.sub, Qty.addsub]
+    split
+    · exact ⟨_, rfl⟩
+    · simp [hd]; exact ⟨_, rfl⟩
+
+/-- power with a rational exponent `n/d` — given as pair or as float (the rational the float
+    denotes) — of a quantity with a positive value: the base value is raised to `n/d`. -/
+theorem C06_pow (env : ι → UnitInfo ℝ) (hpos : EnvPos env) (q : Qty ι ℝ) (p : Frac)
+    (hp : p.den ≠ 0) (hv : 0 ≤ q.mag.value) :
+    ∃ r, q.pow env p = .ok r ∧ r.base env = (q.base env) ^ ((p.toRat : ℚ) : ℝ) := by
+  refine ⟨_, by simp [Qty.pow, hp]; rfl, ?_⟩
+  rw [new_base, magnitude_scale env hpos]
+  simp only [Qty.base, Mag.pow, Mag.new_real, rpow_real]
+  rw [Real.mul_rpow hv (magnitude_pos env hpos _).le]
+
+/-- power with an integer exponent, any sign of the value: `base (q^k) = (base q)^k`. -/
+theorem C06_pow_int (env : ι → UnitInfo ℝ) (hpos : EnvPos env) (q : Qty ι ℝ) (k : ℤ) :
+    ∃ r, q.pow env ⟨k, 1⟩ = .ok r ∧ r.base env = (q.base env) ^ k := by
+  refine ⟨_, by simp [Qty.pow]; rfl, ?_⟩
+  rw [new_base, magnitude_scale env hpos]
+  have hk : (((⟨k, 1⟩ : Frac).toRat : ℚ) : ℝ) = (k : ℝ) := by simp [Frac.toRat]
+  simp only [Qty.base, Mag.pow, Mag.new_real, rpow_real]
+  rw [hk, Real.rpow_intCast, Real.rpow_intCast, mul_zpow]
+
+/-- a pair with denominator 0 is refused (`power[0]/power[1]` raises). -/
+theorem C06_pow_refuse (env : ι → UnitInfo ℝ) (q : Qty ι ℝ) (n : ℤ) :
+    ∃ msg, q.pow env ⟨n, 0⟩ = .error msg := ⟨_, by simp [Qty.pow]; rfl⟩
+
+/-- cancellation: when the dimensions of a result vanish, every unit that has a dimension is
+    dropped, only dimensionless units stay, and the dropped factors are folded into the number
+    (the base value is unchanged). -/
+theorem C06_cancel (env : ι → UnitInfo ℝ) (m : Mag ℝ) (b : BU ι) (h : (b.dims env).nodim = true) :
+    (Qty.new env m b).base env = m.value * b.magnitude env ∧
+    (∀ p ∈ (Qty.new env m b).units, p ∈ b ∧ (unitDims env p.1 p.2).nodim = true) ∧
+    (Qty.new env m b).mag.value = m.value * ((b.filter (fun p => !(unitDims env p.1 p.2).nodim)).map (F env)).prod := by
+  refine ⟨new_base env m b, ?_, ?_⟩
+  · intro p hp
+    unfold Qty.new at hp
+    simp only [h, if_true, BU.new] at hp
+    have := List.mem_of_mem_filter hp
+    exact ⟨List.mem_of_mem_filter this, by simpa using (List.mem_filter.mp this).2⟩
+  · unfold Qty.new
+    simp only [h, if_true]
+    exact fold_value env (fun p => (unitDims env p.1 p.2).nodim) b m
+
+/-- … and when they do not vanish nothing is touched. -/
+theorem C06_no_cancel (env : ι → UnitInfo ℝ) (m : Mag ℝ) (b : BU ι) (h : (b.dims env).nodim = false) :
+    Qty.new env m b = ⟨m, b⟩ := by
+  unfold Qty.new; simp [h]
+
+/-! ### unit exponents (`BU.expOf b u` = exponent of `u`, 0 if absent) -/
+
+/-- a product adds, a quotient subtracts the exponents of every unit (units map before the
+    constructor's folding step, which `C06_cancel` describes). -/
+theorem C06_exps_mul_div (a b : BU ι) (ha : a.WF) (hb : b.WF) (hna : a.KeysNodup) (hnb : b.KeysNodup) (u : ι) :
+    (a.addU b).expOf u = a.expOf u + b.expOf u ∧ (a.subU b).expOf u = a.expOf u - b.expOf u ∧
+    (a.addU b).KeysNodup ∧ (a.subU b).KeysNodup := by
+  have h1 := expOf_merge (fun x e => e.add x) (fun x => x)
+    (fun x e hx he => toRat_add e x he hx)
+    (fun x e hx he => by simp [Frac.add]; exact ⟨he, hx⟩) (fun x hx => hx) b a ha hb hna hnb u
+  have h2 := expOf_merge (fun x e => e.sub x) (fun x => x.neg)
+    (fun x e hx he => toRat_sub e x he hx)
+    (fun x e hx he => by simp [Frac.sub]; exact ⟨he, hx⟩) (fun x hx => by simpa [Frac.neg] using hx)
+    b a ha hb hna hnb u
+  refine ⟨?_, ?_, new_nodup _ h1.1, new_nodup _ h2.1⟩
+  · rw [BU.addU, expOf_new _ h1.1, h1.2]
+    congr 1
+    have := expOf_map (fun x => x) (fun q => q) rfl (fun _ => rfl) b u
+    simp at this; simpa using this
+  · rw [BU.subU, expOf_new _ h2.1, h2.2, expOf_map Frac.neg (fun q => -q) (by simp) toRat_neg b u]
+    ring
+
+/-- a power multiplies every exponent by the exponent `p` — whether `p` came as an int `⟨k,1⟩`,
+    a pair `⟨n,d⟩` or a float (the Fraction `from_float` returns; since the fix). -/
+theorem C06_exps_pow (a : BU ι) (p : Frac) (hna : a.KeysNodup) (u : ι) :
+    (a.scale p).expOf u = a.expOf u * p.toRat := by
+  have hn : BU.KeysNodup (a.map (fun q => (q.1, q.2.mul p))) := by
+    unfold BU.KeysNodup at *
+    simpa [List.map_map, Function.comp_def] using hna
+  rw [BU.scale, expOf_new _ hn,
+    expOf_map (fun x => x.mul p) (fun q => q * p.toRat) (by simp) (fun x => toRat_mul x p) a u]
+
+/-- a sum / difference keeps the left operand's exponents: see `C06_add_sub` (`q.units = l.units`). -/
+theorem C06_exps_zero_absent (b : BU ι) (u : ι) (h : (BU.new b).expOf u ≠ 0) :
+    u ∈ (BU.new b).map Prod.fst := by
+  by_contra hu
+  exact h (expOf_notin _ u hu)
+
+/-! ### non-vacuity: a concrete table (m, km, s) and concrete quantities -/
+
+noncomputable def exEnv : String → UnitInfo ℝ := fun u =>
+  if u = "k:m" then ⟨"km", "m", 1000, [⟨1,1⟩,⟨0,1⟩,⟨0,1⟩,⟨0,1⟩,⟨0,1⟩,⟨0,1⟩,⟨0,1⟩,⟨0,1⟩]⟩
+  else if u = "m" then ⟨"m", "m", 1, [⟨1,1⟩,⟨0,1⟩,⟨0,1⟩,⟨0,1⟩,⟨0,1⟩,⟨0,1⟩,⟨0,1⟩,⟨0,1⟩]⟩
+  else ⟨"s", "s", 1, [⟨0,1⟩,⟨0,1⟩,⟨1,1⟩,⟨0,1⟩,⟨0,1⟩,⟨0,1⟩,⟨0,1⟩,⟨0,1⟩]⟩
+
+example : EnvPos exEnv := by
+  intro u; unfold exEnv; split_ifs <;> norm_num
+
+example : BU.WF ([("k:m", ⟨1, 1⟩), ("s", ⟨-2, 1⟩)] : BU String) := by
+  intro p hp; simp at hp; rcases hp with rfl | rfl <;> decide
+
+/-- `km` and `m` have the same dimension; `m` and `s` do not; `km·m⁻¹` is dimensionless. -/
+example : BU.KeysNodup ([("k:m", ⟨1, 1⟩), ("s", ⟨-2, 1⟩)] : BU String) := by
+  simp [BU.KeysNodup]
+
+example : (BU.dims exEnv [("k:m", ⟨1, 1⟩)]).beq (BU.dims exEnv [("m", ⟨1, 1⟩)]) = true := by
+  simp [BU.dims, unitDims, exEnv, Dims.beq, Dims.add, Dims.scale, Dims.zero, Frac.add, Frac.mul, Frac.beq, Frac.zero]
+example : (BU.dims exEnv [("m", ⟨1, 1⟩)]).beq (BU.dims exEnv [("s", ⟨1, 1⟩)]) = false := by
+  simp [BU.dims, unitDims, exEnv, Dims.beq, Dims.add, Dims.scale, Dims.zero, Frac.add, Frac.mul, Frac.beq, Frac.zero]
+example : (BU.dims exEnv [("k:m", ⟨1, 1⟩), ("m", ⟨-1, 1⟩)]).nodim = true := by
+  simp [BU.dims, unitDims, exEnv, Dims.nodim, Dims.add, Dims.scale, Dims.zero, Frac.add, Frac.mul, Frac.zero]
+
 end SciVerif.C06
